@@ -16,7 +16,7 @@ import sys
 sys.path.insert(0, VERIF)
 
 # every checks/cXX.py carries its own MANIFEST dict (text, note, technique, design[, partial])
-DISABLED = {"C03": "C03's model is being updated to the BAR-delay repair (fix 08f4372); re-registered when it mirrors the repaired code"}
+DISABLED = {}
 CHECKS = {}
 for pid in ALL:
     if pid in DISABLED:
